@@ -14,6 +14,11 @@ are compared with `Model/C07SV.lean` (formal amplitudes a*sqrt(q)).  Sessions ke
 phase Parameters, the component list, the filter and the input change in between: every answer must be the one
 for the values at the time of the query (Lean: `session_history_independent`).  A direct oracle independent of Lean (numpy permanents of the enlarged lossless
 circuit) classifies disagreements.
+Extension 3: (a) programs of loss channels and phase shifters only, photons on every mode — the real distribution
+against the exact product of binomials and against `thinSpect` (Lean: `lc_thinning_with_spectators`);
+(b) heralds, post-selection, photon filter (herald photons added) and keep_heralds on top of the loss layer
+(`ASimulatorDecorator._postprocess_bsd`) through `set_selection`/`keep_heralds`/`probs`/`probs_svd` and through
+`Processor.add_herald`/`set_postselection`/`min_detected_photons_filter` (Lean: `loss_selection_is_conditioning`).
 """
 from __future__ import annotations
 
@@ -1739,6 +1744,441 @@ def handle_dilation(chk):
 
 
 # ------------------------------------------------------------------------------------------------
+# extension 3 (a): a loss channel with photons in the other modes.  Programs made of loss channels and phase
+# shifters only: every photon of mode i survives independently with probability tau_i = product of (1 - loss) over
+# the channels of that mode, so P(t | s) = prod_i C(s_i, t_i) tau_i^t_i (1 - tau_i)^(s_i - t_i) — a closed form
+# evaluated here with exact fractions, independent of Lean and of permanents (direct oracle on the real code).
+# Lean: `lc_thinning_with_spectators` (`thinspect`: block by permanents = closed form `thinSpect`).
+# ------------------------------------------------------------------------------------------------
+def gen_thin_case(rng, chk):
+    m = rng.randint(1, 4)
+    n_lc = rng.randint(1, 3)
+    comps = []
+    for _ in range(n_lc):
+        comps.append([rng.randrange(m), gen_lc(rng)])
+    for _ in range(rng.randint(0, 2)):
+        comps.insert(rng.randint(0, len(comps)), [rng.randrange(m), {"t": "PS", "phi": gens.gen_cs(rng)}])
+    mode = rng.choice(["processor", "list"])
+    mm = m if mode == "processor" else max(r0 + 1 for r0, _ in comps)
+    inputs = []
+    for _ in range(rng.randint(1, 2)):
+        s = [0] * mm
+        for _ in range(rng.randint(1, 4)):
+            s[rng.randrange(mm)] += 1
+        if s not in inputs:
+            inputs.append(s)
+    return {"m": m, "mode": mode, "backend": rng.choice(["SLOS", "SLOS", "Naive", "SLAP"]), "comps": comps,
+            "inputs": inputs, "filter": 0, "malformed": None}
+
+
+def thin_closed_form(prog, s):
+    """exact product of binomials on the original modes"""
+    mm = len(s)
+    tau = [Fraction(1)] * mm
+    for r0, c in prog["comps"]:
+        if c["t"] == "LC":
+            tau[r0] *= 1 - lc_loss(c)
+    out = {(): Fraction(1)}
+    for i in range(mm):
+        nxt = {}
+        for key, pr in out.items():
+            for k in range(s[i] + 1):
+                w = math.comb(s[i], k) * tau[i] ** k * (1 - tau[i]) ** (s[i] - k)
+                if w:
+                    nxt[key + (k,)] = pr * w
+        out = nxt
+    return out
+
+
+def judge_thin(chk, prog):
+    obs = observe(prog)
+    if "err" in obs:
+        return ("violation", "rejects-admissible-program", f"the real API raised {obs['err']} ({obs.get('msg')})")
+    for run in obs["runs"]:
+        want = thin_closed_form(prog, run["input"])
+        if dist_close(run["results"], want):
+            return ("violation", "loss-not-independent-thinning",
+                    f"{run['via']} on input {run['input']}: a program of loss channels and phase shifters only must "
+                    f"keep each photon of mode i independently with probability prod(1-loss); worst difference "
+                    f"{dist_close(run['results'], want):.3g}")
+    r = judge_obs(chk, prog, obs)          # the model of the rewrite (permanents of the enlarged circuit)
+    if r is not None:
+        return r
+    # the first channel's block, with the input's photons as spectators, in Lean: permanents against the closed form
+    lcs = [(r0, c) for r0, c in prog["comps"] if c["t"] == "LC"]
+    r0, c = lcs[0]
+    if "loss" in c:
+        return None
+    M = len(prog["inputs"][0])
+    N = M + len(lcs)
+    for s0 in prog["inputs"]:
+        rep = chk.lean.ask({"op": "thinspect", "N": N, "a": r0, "b": M, "S": list(s0) + [0] * (N - M),
+                            "c": core.rat(Fraction(c["a"], c["h"])), "s": core.rat(Fraction(c["b"], c["h"]))})
+        if "err" in rep or rep["perm"] != rep["closed"]:
+            return ("broken", "thinning-with-spectators-closed-form",
+                    f"model: channel block by permanents differs from the closed form thinSpect ({rep.get('err')})")
+        if len(lcs) == 1:
+            marg = {}
+            for k, v in rep["closed"]:
+                marg[tuple(k[:M])] = marg.get(tuple(k[:M]), Fraction(0)) + Fraction(v)
+            for run in obs["runs"]:
+                if run["input"] == s0 and dist_close(run["results"], marg):
+                    return ("broken", "thinning-with-spectators-vs-code",
+                            f"Lean closed form thinSpect and {run['via']} disagree on input {s0} although the "
+                            "binomial oracle agrees with the implementation")
+    return None
+
+
+def handle_thin(chk, prog):
+    lcs = [r0 for r0, c in prog["comps"] if c["t"] == "LC"]
+    chk.branch("thinning-with-spectators")
+    spect = any(any(x and i not in lcs for i, x in enumerate(s)) for s in prog["inputs"])
+    if spect:
+        chk.branch("thinning-spectator-photons")
+    if any(sum(s) >= 3 for s in prog["inputs"]):
+        chk.branch("thinning-three-or-more-photons")
+    if len(set(lcs)) < len(lcs):
+        chk.branch("thinning-two-channels-one-mode")
+    chk.count("thin-n", max(sum(s) for s in prog["inputs"]))
+    res = judge_thin(chk, prog)
+    chk.case(("thin",) + signature(prog) + (tuple(map(tuple, prog["inputs"])),), nontrivial=spect and len(lcs) >= 1,
+             sample={"thin": [(r0, c["t"]) for r0, c in prog["comps"]], "inputs": prog["inputs"]})
+    if res is not None:
+        kind, sig, what = res
+
+        def fails(p):
+            try:
+                r = judge_thin(chk, p)
+            except core.LeanError:
+                raise
+            except Exception:
+                return False
+            return r is not None and r[1] == sig
+        cur = copy.deepcopy(prog)
+        for s0 in list(cur["inputs"]):
+            if fails(dict(cur, inputs=[s0])):
+                cur = dict(cur, inputs=[s0])
+                break
+
+        def f2(cs):
+            if not any(c["t"] == "LC" for _, c in cs):
+                return False
+            if cur["mode"] == "list" and max(r0 + 1 for r0, _ in cs) != len(cur["inputs"][0]):
+                return False
+            return fails(dict(cur, comps=cs))
+        cur["comps"] = gens.shrink_list(cur["comps"], f2, max_rounds=40)
+        chk.fail(kind, sig, what, {"thin": cur})
+
+
+# ------------------------------------------------------------------------------------------------
+# extension 3 (b): heralds, post-selection, photon filter and keep_heralds on top of the loss layer
+# (`ASimulatorDecorator._postprocess_bsd`), through SimulatorFactory.build(list) + set_selection / keep_heralds +
+# probs / probs_svd, and through Processor.add_herald / set_postselection / min_detected_photons_filter + probs.
+# Lean: `lossPost` (the code's two normalisations) and the specification `SimSpec.conditioned` on the original modes
+# (`loss_selection_is_conditioning`).  Direct oracle: numpy permanents of the enlarged lossless circuit, conditioned
+# here in Python as the property states it.
+# ------------------------------------------------------------------------------------------------
+PS_OPS = ["==", "<", ">", "<=", ">="]
+
+
+def gen_ps_expr(rng, m, depth):
+    """-> (PostSelect source string, Lean json)"""
+    if depth == 0 or rng.random() < 0.45:
+        modes = sorted(rng.sample(range(m), rng.randint(1, min(2, m))))
+        op = rng.choice(PS_OPS)
+        k = rng.randint(0, 1) if rng.random() < 0.8 else 2
+        return f"[{','.join(map(str, modes))}] {op} {k}", {"c": modes, "op": op, "k": k}
+    kind = rng.choice(["and", "or", "xor", "not"])
+    a, ja = gen_ps_expr(rng, m, depth - 1)
+    if kind == "not":
+        return f"!({a})", {"not": ja}
+    b, jb = gen_ps_expr(rng, m, depth - 1)
+    sym = {"and": "&", "or": "|", "xor": "^"}[kind]
+    return f"(({a}) {sym} ({b}))", {kind: [ja, jb]}
+
+
+def ps_eval(j, t):
+    if j is True:
+        return True
+    if "c" in j:
+        v = sum(t[i] for i in j["c"])
+        return {"==": v == j["k"], "<": v < j["k"], ">": v > j["k"], "<=": v <= j["k"], ">=": v >= j["k"]}[j["op"]]
+    if "and" in j:
+        return ps_eval(j["and"][0], t) and ps_eval(j["and"][1], t)
+    if "or" in j:
+        return ps_eval(j["or"][0], t) or ps_eval(j["or"][1], t)
+    if "xor" in j:
+        return ps_eval(j["xor"][0], t) != ps_eval(j["xor"][1], t)
+    return not ps_eval(j["not"], t)
+
+
+def gen_sel_case(rng, chk):
+    prog = gen_program(rng, chk, max_m=4, max_lc=3, max_n=3)
+    M = prog["m"] if prog["mode"] == "processor" else max(r0 + width(c) for r0, c in prog["comps"])
+    r = rng.random()
+    nh = 0 if r < 0.25 else (1 if r < 0.75 else 2)
+    nh = min(nh, M - 1) if prog["mode"] == "processor" else min(nh, M)
+    hmodes = sorted(rng.sample(range(M), nh))
+    heralds = [[i, rng.choice([0, 0, 1, 1, 2]) if rng.random() < 0.9 else 3] for i in hmodes]
+    if prog["mode"] == "processor":            # Processor.add_herald asserts `expected` in (0, 1)
+        heralds = [[i, min(v, 1)] for i, v in heralds]
+    while sum(v for _, v in heralds) > 3:
+        heralds[rng.randrange(len(heralds))][1] = 0
+    if rng.random() < 0.65:
+        src, js = gen_ps_expr(rng, M, 2)
+    else:
+        src, js = None, True
+    sel = {"heralds": heralds, "ps": js, "ps_src": src, "minDet": rng.choice([0, 0, 1, 1, 2, 3]),
+           "keep": rng.random() < 0.5 if prog["mode"] == "list" else False}
+    hv = dict(map(tuple, heralds))
+    free = [i for i in range(M) if i not in hv] or list(range(M))
+    inputs = []
+    for _ in range(rng.randint(1, 2)):
+        s = [0] * M
+        if prog["mode"] == "processor" or rng.random() < 0.7:
+            for i, v in hv.items():          # a Processor feeds each herald mode with its expected photons
+                s[i] = v
+        for _ in range(min(rng.choice([0, 1, 1, 2, 2, 3]), 4 - sum(s))):
+            s[rng.choice(free)] += 1
+        if s not in inputs:
+            inputs.append(s)
+    prog["inputs"] = inputs
+    prog["filter"] = 0
+    prog["sel"] = sel
+    return prog
+
+
+def observe_sel(prog):
+    import perceval as pcvl
+    from perceval.simulators import SimulatorFactory
+    sel = prog["sel"]
+    hv = {int(a): int(b) for a, b in sel["heralds"]}
+    objs, mats = [], []
+    try:
+        for r0, spec in prog["comps"]:
+            objs.append(build_comp(spec))
+        mats = snapshot_mats(prog["comps"], objs)
+        runs = []
+        if prog["mode"] == "processor":
+            p = pcvl.Processor(prog["backend"], prog["m"])
+            for (r0, spec), obj in zip(prog["comps"], objs):
+                p.add(r0, obj)
+            for i, v in hv.items():
+                p.add_herald(i, v)
+            if sel["ps_src"]:
+                p.set_postselection(pcvl.PostSelect(sel["ps_src"]))
+            p.min_detected_photons_filter(sel["minDet"])
+            for s in prog["inputs"]:
+                p.with_input(pcvl.BasicState([x for i, x in enumerate(s) if i not in hv]))
+                res = p.probs(precision=0)
+                runs.append({"input": s, "via": "Processor.probs", "results": bsd_to_dict(res["results"]),
+                             "physical_perf": float(res["physical_perf"]), "logical_perf": float(res["logical_perf"])})
+        else:
+            lst = [(tuple(range(r0, r0 + obj.m)), obj) for (r0, spec), obj in zip(prog["comps"], objs)]
+            sim = SimulatorFactory.build(lst, prog["backend"])
+            sim.set_precision(0)
+            sim.set_selection(min_detected_photons_filter=sel["minDet"],
+                              postselect=pcvl.PostSelect(sel["ps_src"]) if sel["ps_src"] else None, heralds=hv)
+            sim.keep_heralds(sel["keep"])
+            for s in prog["inputs"]:
+                d0 = bsd_to_dict(sim.probs(pcvl.BasicState(s)))
+                runs.append({"input": s, "via": "build(list).probs", "results": d0, "physical_perf": None,
+                             "logical_perf": None})
+                res = sim.probs_svd(pcvl.SVDistribution(pcvl.BasicState(s)))
+                runs.append({"input": s, "via": "build(list).probs_svd", "results": bsd_to_dict(res["results"]),
+                             "physical_perf": float(res["physical_perf"]), "logical_perf": float(res["logical_perf"])})
+        return {"runs": runs, "mats": mats}
+    except Exception as e:
+        if is_repo_error(e):
+            return {"err": type(e).__name__, "msg": str(e)[:200], "mats": mats}
+        raise
+
+
+def sel_spec(dist, sel, M):
+    """the property's reading, from an unconditioned distribution {state: prob} on the original modes:
+    -> (joint probabilities of the reported states, physical mass, retained mass)"""
+    hv = {int(a): int(b) for a, b in sel["heralds"]}
+    f = sel["minDet"] + sum(hv.values())
+    phys = 0
+    joint = {}
+    for t, pr in dist.items():
+        if sum(t) < f:
+            continue
+        phys += pr
+        if all(t[i] == v for i, v in hv.items()) and ps_eval(sel["ps"], t):
+            key = t if sel["keep"] else tuple(x for i, x in enumerate(t) if i not in hv)
+            joint[key] = joint.get(key, 0) + pr
+    return joint, phys, sum(joint.values())
+
+
+def compare_sel(run, joint, phys, ret, tol):
+    """observed run against joint probabilities / masses (floats or Fractions) -> dict of problems"""
+    out = {}
+    res = run["results"]
+    phys, ret = float(phys), float(ret)
+    if run["physical_perf"] is not None:
+        if abs(run["physical_perf"] - phys) > tol + tol * phys:
+            out["perf"] = phys
+        # logical_perf is only meaningful when something passed the photon filter
+        if phys > 1e-6 and abs(run["logical_perf"] * run["physical_perf"] - ret) > tol + tol * ret:
+            out["lperf"] = ret / phys
+        scale = run["physical_perf"] * run["logical_perf"] if phys > 1e-6 else 0.0
+    else:
+        scale = ret
+    worst = 0.0
+    for k in set(res) | set(joint):
+        d = abs(res.get(k, 0.0) * scale - (float(joint.get(k, 0)) if scale else 0.0))
+        if d > tol + tol * float(joint.get(k, 0)):
+            worst = max(worst, d)
+    if worst:
+        out["dist"] = worst
+    if ret > 1e-6 and (phys > 1e-6) and not core.close(sum(res.values()), 1.0):
+        out["norm"] = sum(res.values())
+    return out
+
+
+def judge_sel(chk, prog):
+    obs = observe_sel(prog)
+    sel = prog["sel"]
+    req = None
+    try:
+        req = lean_request(prog, obs["mats"] + [None] * (len(prog["comps"]) - len(obs["mats"])))
+    except Exception:
+        pass
+    if req is None:
+        return None
+    req = dict(req, op="probssel", sel={"heralds": sel["heralds"], "ps": sel["ps"], "minDet": sel["minDet"],
+                                         "keep": sel["keep"]})
+    rep = chk.lean.ask(req)
+    if "err" in obs:
+        if "err" in rep:
+            return None
+        return ("violation", "selection-rejects-admissible-program",
+                f"the real API raised {obs['err']} ({obs.get('msg')}) on a lossy program with a selection the model accepts")
+    if "err" in rep:
+        return ("broken", "selection-model-rejects", f"the model rejects ({rep['err']}) what the real API accepted")
+    M = rep["M"]
+    umat = None
+    for run in obs["runs"]:
+        mr = rep["runs"][prog["inputs"].index(run["input"])]
+        if abs(float(Fraction(mr["mass"]) - 1)) > 1e-12:
+            return ("broken", "enlarged-mass", f"the model's enlarged distribution has mass {mr['mass']}")
+        # the theorem `loss_selection_is_conditioning` on the wire (its hypotheses: something passes the filter)
+        sp = Fraction(mr["specPhysical"])
+        if sp != 0 and sum(run["input"]) >= sel["minDet"]:
+            if Fraction(mr["mass"]) == 1:        # the theorem's hypothesis holds exactly: exact equality
+                same = (mr["physical"] == mr["specPhysical"] and mr["logical"] == mr["specLogical"] and
+                        (Fraction(mr["retained"]) == 0 or (mr["results"] == mr["spec"] and mr["probs"] == mr["spec"])))
+            else:                                # float leaves: unitary up to rounding only
+                def dd(a, b):
+                    return dist_close({tuple(k): float(Fraction(v)) for k, v in a},
+                                      {tuple(k): Fraction(v) for k, v in b}, 1e-10)
+                same = (abs(float(Fraction(mr["physical"]) - sp)) < 1e-10 and
+                        abs(float(Fraction(mr["logical"]) - Fraction(mr["specLogical"]))) < 1e-10 and
+                        (Fraction(mr["retained"]) < Fraction(1, 10**6) or
+                         not (dd(mr["results"], mr["spec"]) or dd(mr["probs"], mr["spec"]))))
+            if not same:
+                return ("broken", "selection-model-vs-spec",
+                        "the code-shaped model (two normalisations) and the specification (one conditioning) differ")
+        if run["physical_perf"] is None:
+            mj = {tuple(k): Fraction(v) * Fraction(mr["retained"]) for k, v in mr["probs"]}
+            mphys, mret = sp, Fraction(mr["retained"])
+        else:
+            mphys, mlog = Fraction(mr["physical"]), Fraction(mr["logical"])
+            mret = mphys * mlog
+            mj = {tuple(k): Fraction(v) * mret for k, v in mr["results"]}
+        probs = compare_sel(run, mj, mphys, mret, TOL)
+        hkeys = M if sel["keep"] else M - len(sel["heralds"])
+        if any(len(k) != hkeys for k in run["results"]):
+            return ("violation", "selection-output-shape",
+                    f"{run['via']} returned states that are not on the {hkeys} reported modes")
+        if not probs:
+            continue
+        if umat is None:
+            umat = oracle_matrix(prog, obs["mats"])
+        od = oracle_dist(*umat, run["input"])
+        joint, phys, ret = sel_spec(od, sel, M)
+        if run["physical_perf"] is not None and sum(run["input"]) < sel["minDet"]:
+            joint, phys, ret = {}, 0.0, 0.0
+        oprobs = compare_sel(run, joint, phys, ret, 1e-7)
+        what = (f"{run['via']} on input {run['input']} with heralds {sel['heralds']}, post-selection {sel['ps_src']!r}, "
+                f"min_detected_photons {sel['minDet']}, keep_heralds {sel['keep']}")
+        if "dist" in oprobs or "norm" in oprobs:
+            return ("violation", "loss-selection-differs",
+                    f"{what}: the reported distribution is not the enlarged lossless circuit's distribution on the "
+                    f"original modes conditioned on the selection ({oprobs})")
+        if "perf" in oprobs or "lperf" in oprobs:
+            return ("violation", "loss-selection-perf",
+                    f"{what}: physical_perf {run['physical_perf']!r} / logical_perf {run['logical_perf']!r}, the "
+                    f"property gives {phys!r} / {(ret / phys if phys else None)!r}")
+        return ("broken", "selection-model-vs-code", f"Lean model and {what} disagree ({probs}) but the numpy oracle "
+                                                     "agrees with the implementation")
+    return None
+
+
+def handle_sel(chk, prog):
+    sel = prog["sel"]
+    chk.branch("selection-via-" + prog["mode"])
+    if sel["heralds"]:
+        chk.branch("selection-heralds")
+        if any(v for _, v in sel["heralds"]):
+            chk.branch("selection-herald-photons-in-filter")
+    if sel["ps_src"]:
+        chk.branch("selection-postselect")
+    if sel["minDet"]:
+        chk.branch("selection-photon-filter")
+    if sel["keep"] and sel["heralds"]:
+        chk.branch("selection-keep-heralds")
+    if any(sum(s) < sel["minDet"] for s in prog["inputs"]) and prog["mode"] == "list":
+        chk.branch("selection-inner-filter-drops-input")
+    chk.count("sel-heralds", len(sel["heralds"]))
+    chk.count("sel-minDet", sel["minDet"])
+    res = judge_sel(chk, prog)
+    chk.case(("sel",) + signature(prog) + (json.dumps(sel, sort_keys=True), tuple(map(tuple, prog["inputs"]))),
+             nontrivial=bool(sel["heralds"] or sel["ps_src"] or sel["minDet"]),
+             sample={"sel": {k: sel[k] for k in ("heralds", "ps_src", "minDet", "keep")}, "mode": prog["mode"],
+                     "comps": [(r0, c["t"]) for r0, c in prog["comps"]][:8], "inputs": prog["inputs"][:2]})
+    if res is not None:
+        kind, sig, what = res
+
+        def fails(p):
+            try:
+                r = judge_sel(chk, p)
+            except core.LeanError:
+                raise
+            except Exception:
+                return False
+            return r is not None and r[1] == sig
+        cur = copy.deepcopy(prog)
+        for s0 in list(cur["inputs"]):
+            if fails(dict(cur, inputs=[s0])):
+                cur = dict(cur, inputs=[s0])
+                break
+
+        def f2(cs):
+            if not any(sp["t"] == "LC" for _, sp in cs):
+                return False
+            if cur["mode"] == "list" and max(r0 + width(sp) for r0, sp in cs) != len(cur["inputs"][0]):
+                return False
+            return fails(dict(cur, comps=cs))
+        cur["comps"] = gens.shrink_list(cur["comps"], f2, max_rounds=40)
+        for cand_sel in (dict(cur["sel"], ps=True, ps_src=None), dict(cur["sel"], minDet=0),
+                         dict(cur["sel"], keep=False)):
+            cand = dict(cur, sel=cand_sel)
+            if cand_sel != cur["sel"] and fails(cand):
+                cur = cand
+        try:
+            again = judge_sel(chk, cur)
+            if again is not None and again[1] == sig:
+                what = again[2]
+        except core.LeanError:
+            raise
+        except Exception:
+            pass
+        chk.fail(kind, sig, what, {"sel": cur})
+
+
+# ------------------------------------------------------------------------------------------------
 def load_corpus():
     out = []
     if os.environ.get("VERIF_C07_NO_CORPUS"):      # development aid: what does the generator find on its own?
@@ -1783,12 +2223,27 @@ def run(chk: core.Check):
                 "real probs. Noisy-source cases (60 / 600): Processor(noise=NoiseModel(brightness, transmittance)) from 7 "
                 "dyadic settings with LC programs, 1-3 expected photons, filter 0/1/2: source distribution against the "
                 "emission model, results and physical_perf against the mixture. LC.apply cases (80 / 800), in a child "
-                "process: 1-3 modes, 1-3 term superpositions, one or two successive LC(loss).apply((r,), sv)")
+                "process: 1-3 modes, 1-3 term superpositions, one or two successive LC(loss).apply((r,), sv). "
+                "Thinning-with-spectators cases (50 / 500): programs of 1-3 loss channels (also several on one mode) and "
+                "0-2 phase shifters on 1-4 modes, 1-4 photons on any modes, Processor and list entry points: real "
+                "distribution against the exact product of binomials (independent oracle), against the model of the "
+                "rewrite, and the first channel's block with the input's photons as spectators by permanents against "
+                "the closed form of lc_thinning_with_spectators. Selection cases (110 / 1100): random lossy programs "
+                "(<= 3 channels) with 0-2 heralds (expected 0-3 photons; 0/1 through Processor.add_herald), a "
+                "post-selection expression of depth <= 2 (65%), min_detected_photons 0-3, keep_heralds either way "
+                "(list entry point), 1-2 inputs with <= 4 photons (herald modes fed or not), through "
+                "SimulatorFactory.build(list).set_selection/keep_heralds/probs/probs_svd and Processor.add_herald/"
+                "set_postselection/min_detected_photons_filter/probs: joint probabilities, physical_perf, logical_perf, "
+                "key shapes and normalisation against the model of _postprocess_bsd, the model against the "
+                "specification (exactly when the enlarged matrix is exactly unitary), disagreements classified by "
+                "numpy permanents conditioned in Python")
     chk.assumptions = [
         "leaf matrices are taken from each leaf's own compute_unitary() (their correctness is C14)",
         "the strong-simulation backends return the Fock-space probabilities of the matrix they are given (C02)",
-        "Fock-state inputs or the emission-only noisy source (brightness, transmittance); no heralds/post-selection "
-        "(conditioning is C04); the source distribution itself is C06's (it is read from the real Processor and "
+        "Fock-state inputs or the emission-only noisy source (brightness, transmittance); heralds / post-selection / "
+        "photon filter on top of the loss layer are modelled for a perfect source (the evaluation of a PostSelect "
+        "expression and the Processor's herald bookkeeping are C04's / C05's; here they are only driven), no detectors; "
+        "the source distribution itself is C06's (it is read from the real Processor and "
         "compared with the emission model), annotated photons (g2, indistinguishability) with loss are not modelled",
         "evolve is compared with the code as it is (amplitudes of different loss patterns added), not with the physical "
         "mixed state; the containers StateVector/BSDistribution (normalisation on iteration) are exqalibur's",
@@ -1807,7 +2262,13 @@ def run(chk: core.Check):
                              "dm-off-diagonal", "dm-complex-off-diagonal",
                              "evolve-single-pattern", "evolve-several-patterns", "evolve-superposition",
                              "lc-apply", "lc-apply-twice", "lc-apply-superposition",
-                             "noisy-source-with-loss", "noisy-source-with-loss-filter"]
+                             "noisy-source-with-loss", "noisy-source-with-loss-filter",
+                             "thinning-with-spectators", "thinning-spectator-photons",
+                             "thinning-three-or-more-photons", "thinning-two-channels-one-mode",
+                             "selection-via-processor", "selection-via-list", "selection-heralds",
+                             "selection-herald-photons-in-filter", "selection-postselect",
+                             "selection-photon-filter", "selection-keep-heralds",
+                             "selection-inner-filter-drops-input"]
     chk.lean = core.LeanDriver("C07")
     rng = chk.rng
     for item in load_corpus():
@@ -1833,6 +2294,10 @@ def run(chk: core.Check):
     for i in range(chk.pick(60, 600)):
         handle_source(chk, gen_source_case(rng, chk))
     handle_lcapply_batch(chk, [gen_lcapply_case(rng, k) for k in range(chk.pick(80, 800))])
+    for i in range(chk.pick(50, 500)):
+        handle_thin(chk, gen_thin_case(rng, chk))
+    for i in range(chk.pick(110, 1100)):
+        handle_sel(chk, gen_sel_case(rng, chk))
 
 
 def guarded(chk, what, replay, fn, *args):
@@ -1868,6 +2333,10 @@ def replay_item(chk, item):
         handle_lcapply_batch(chk, [item["lcapply"]])
     elif "dilation" in item:
         handle_dilation(chk)
+    elif "thin" in item and isinstance(item["thin"], dict):
+        handle_thin(chk, item["thin"])
+    elif "sel" in item:
+        handle_sel(chk, item["sel"])
     else:
         handle_thinning(chk)
 
